@@ -181,6 +181,10 @@ pub(crate) fn translate_block(
                 | capstone::x86_insn::X86_INS_MOVNTI
                 | capstone::x86_insn::X86_INS_MOVUPS => semantics.mov(&mut instruction_graph),
                 capstone::x86_insn::X86_INS_MOVQ => semantics.movq(&mut instruction_graph),
+                // the SSE2 scalar move shares its mnemonic with the string move
+                capstone::x86_insn::X86_INS_MOVSD if semantics.has_xmm_operand() => {
+                    semantics.movsd_sse(&mut instruction_graph)
+                }
                 capstone::x86_insn::X86_INS_MOVSB
                 | capstone::x86_insn::X86_INS_MOVSW
                 | capstone::x86_insn::X86_INS_MOVSD
